@@ -15,7 +15,7 @@ def dd_signature(tag, reset):
 def dd_runs(chk, w, tier, families, extra=None, module="TraceDD", cfg="TraceDD.cfg", insts=None, per=None, name="dd"):
     thorough = tier == "thorough"
     batches = []
-    nb = 1 if not thorough else 12
+    nb = 1 if not thorough else 16
     for b in range(nb):
         for fam in families:
             tr = os.path.join(w, f"{name}_{fam}_{b}.ndjson")
